@@ -253,9 +253,13 @@ fn stop_continue_one(ctx: &Ctx, prop: &str, script: &str, delay: u64) {
     use yash_env::system::r#virtual::SIGCONT;
     // expected events: the script with the stop signals taken out
     let plain = script.replace("sig STOP; ", "").replace("sig TSTP; ", "");
-    let base = vsh::run_script(&plain, Strategy::Fifo);
+    // (the script is read from standard input, so that a stopped command can be the reader of
+    // the next line)
+    let mut bcfg = vsh::VCfg::stdin_script(&plain);
+    bcfg.extra = vsh::v_probes();
+    let base = vsh::run_v(bcfg);
     let want: Vec<String> = base.events.iter().filter(|e| e.kind == "probe").map(|e| e.args.join(" ")).collect();
-    let mut cfg = vsh::VCfg::script(script);
+    let mut cfg = vsh::VCfg::stdin_script(script);
     cfg.extra = vsh::v_probes();
     cfg.tick_on_stall = true;
     let stopped_since: std::rc::Rc<std::cell::RefCell<std::collections::BTreeMap<i32, u64>>> = Default::default();
